@@ -91,6 +91,26 @@ theorem format_table :
     allFrom (fun i => modelFormatOk (i / 4) (i % 4) == Generated.formatOkTable.getD i false) 0 36 = true := by
   decide +kernel
 
+/-- the model's account of the whole life of a format: the default format is `d0` when
+`config_setting_set_format(setting of type t, f)` is called and `d1` when the setting is
+observed: 100·success + 10·(format stored in the setting) + effective format -/
+def modelFormatEffect (t d0 f d1 : Nat) : Nat :=
+  let s0 := run [.add [] (some [120]) (t : Nat), .setDefaultFormat d0]
+  let r := step s0 (.setFormat [0] f)
+  let s1 := (step r.1 (.setDefaultFormat d1)).1
+  let ok := match r.2.res with | .flag true => 100 | _ => 0
+  let stored := match s1.cfg.root.kids with | n :: _ => n.fmt | [] => 99
+  let eff := match (step s1 (.getFormat [0])).2.res with | .nat e => e.toNat | _ => 99
+  ok + 10 * stored + eff
+
+/-- An explicitly assigned format is stored as given — whatever the default format is at that
+moment — and the effective format follows the default exactly when nothing was assigned:
+the model equals the real functions on the whole domain (9 types × 2 defaults × 4 requested
+formats × 2 later defaults). -/
+theorem format_effect_table :
+    allFrom (fun i => modelFormatEffect (i / 16) (i / 8 % 2) (i / 2 % 4) (i % 2) == Generated.formatEffectTable.getD i 7777) 0 144 = true := by
+  decide +kernel
+
 /-! ### which typed lookups and assignments succeed (the success pattern of C07's conversion table)
 
 For every stored type 0..8, every requested kind and both auto-convert settings, on the
